@@ -313,30 +313,26 @@ def entrypoint_failures(pty: Ty, ename: str, path: str, aval, only=None):
     return _flt(out, only)
 
 
-def union_wclass(pty: Ty, path: str, f: Failure) -> str:
-    """witness class for failures on parameter (union) types: where the annotations sit around `path`."""
+def value_wclass(pty: Ty, w, f: Failure = None) -> str:
+    """why/where a parameter value (or call) fails: annotation placement along the value's path."""
     e = pty.expr()
-    node = node_at(pty, path)
-    above = [node_at(pty, path[:i]) for i in range(len(path))]
+    vp = EP.value_path(e, G.neutral(pty, w))
+    leaf = node_at(pty, vp)
+    names = {n: p for n, p, _ in EP.annotated_nodes(e, include_root=False)}
     parts = []
     if pty.prim != 'or':
         parts.append('non-union-root')
-    if node.field is None and path:
-        parts.append('unannotated-node')
-    if any(a.field for a in above[1:]):
-        parts.append('below-annotated-inner-or')
-    elif above and above[0].field:
-        parts.append('below-annotated-root')
-    if node.prim == 'or':
-        parts.append('or-node')
-        leaves_annot = [t.field is not None for t in node.walk() if t.prim != 'or']
-        parts.append('unannotated-leaves-below' if not all(leaves_annot) else 'annotated-leaves-below')
-    names = [n for n, _, _ in EP.annotated_nodes(e)]
-    for special in ('default', 'root'):
-        if special in names:
-            parts.append(f'has-%{special}')
-    if any(t.tname for t in pty.walk()):
-        parts.append('type-annot')
+    if pty.field is None and 'default' in names and 'root' in names:
+        parts.append('root-name-collision(%default+%root-branches)')
+    if vp:
+        parts.append('annotated-leaf' if leaf.field is not None else 'unannotated-leaf')
+        inner = [node_at(pty, vp[:i]) for i in range(1, len(vp))]
+        if any(t.field is not None for t in inner):
+            parts.append('annotated-inner-or-above')
+    if pty.field is not None:
+        parts.append('annotated-root')
+    if leaf.tname is not None:
+        parts.append('type-annotated-leaf')
     return '+'.join(parts) or 'plain'
 
 
